@@ -23,6 +23,7 @@ import (
 	"fmt"
 	"math/rand"
 	"os"
+	"reflect"
 	"runtime"
 	"sort"
 	"strconv"
@@ -31,6 +32,7 @@ import (
 	"sync/atomic"
 	"testing"
 	"time"
+	"unsafe"
 )
 
 // ------------------------------------------------------------------ plumbing
@@ -1541,6 +1543,529 @@ func vC16RaceClear() map[string]any {
 	}
 	return map[string]any{"k": "go-race-clear", "go_fail": goFail, "nontrivial": true,
 		"desc": map[string]any{"schedule": "Clear() clears segments 0..14, waits for 15; Set(k@0); release; Clear finishes", "len": m.Len(), "reachable": n}}
+}
+
+// --------------------------------------------------------- forced schedules
+// The tie between the interleaving model (Conc.v) and the code.  The test owns the
+// write lock of every segment of a 16-segment map, so every thread it starts runs
+// up to the first lock it needs and waits there.  Releasing one lock lets exactly
+// the threads in front of it run — each until it stands in front of another lock
+// or returns — then the test takes the lock back and records the counter, every
+// segment's content, who has returned and how many threads wait where.  The Coq
+// side replays the actions on the model (all interleavings of the released
+// threads' atomic steps) and keeps the outcomes that agree.
+//
+// "Everybody is parked" is read from the lock words: sync.Mutex counts its
+// sleeping waiters in state>>3, a write-held RWMutex its pending readers in
+// readerCount.  The field offsets are looked up by name and the reading is
+// calibrated on a scratch lock first; if that fails (another runtime layout) the
+// cases are reported inconclusive.  No verdict depends on time: waiting is bounded
+// only to turn a hang into a reported failure.
+
+type vC16LockPeek struct {
+	offW, offR uintptr
+	ok         bool
+}
+
+func vC16NewLockPeek() vC16LockPeek {
+	var pk vC16LockPeek
+	t := reflect.TypeOf(sync.RWMutex{})
+	fw, ok := t.FieldByName("w")
+	if !ok {
+		return pk
+	}
+	off := fw.Offset
+	mt := fw.Type
+	if fm, ok := mt.FieldByName("mu"); ok {
+		off += fm.Offset
+		mt = fm.Type
+	}
+	fs, ok := mt.FieldByName("state")
+	if !ok || fs.Type.Kind() != reflect.Int32 {
+		return pk
+	}
+	pk.offW = off + fs.Offset
+	fr, ok := t.FieldByName("readerCount")
+	if !ok {
+		return pk
+	}
+	offr := fr.Offset
+	if fr.Type.Kind() == reflect.Struct {
+		fv, ok := fr.Type.FieldByName("v")
+		if !ok {
+			return pk
+		}
+		offr += fv.Offset
+	}
+	pk.offR = offr
+	// calibration: one pending writer and one pending reader on a write-held lock
+	var rw sync.RWMutex
+	rw.Lock()
+	var wg sync.WaitGroup
+	wg.Add(2)
+	go func() { defer wg.Done(); rw.Lock(); rw.Unlock() }()
+	go func() { defer wg.Done(); rw.RLock(); rw.RUnlock() }()
+	for i := 0; i < 40000 && !pk.ok; i++ {
+		w, r := pk.waiting(&rw)
+		pk.ok = w == 1 && r == 1
+		if !pk.ok {
+			if i < 2000 {
+				runtime.Gosched()
+			} else {
+				time.Sleep(50 * time.Microsecond)
+			}
+		}
+	}
+	rw.Unlock()
+	wg.Wait()
+	if w, r := pk.waiting(&rw); w != 0 || r != 0 {
+		pk.ok = false
+	}
+	return pk
+}
+
+// sleeping writers, pending readers (the latter only meaningful while the lock is write-held)
+func (pk vC16LockPeek) waiting(rw *sync.RWMutex) (int, int) {
+	st := atomic.LoadInt32((*int32)(unsafe.Add(unsafe.Pointer(rw), pk.offW)))
+	rc := atomic.LoadInt32((*int32)(unsafe.Add(unsafe.Pointer(rw), pk.offR)))
+	r := 0
+	if rc < 0 {
+		r = int(rc + 1<<30)
+	}
+	return int(st >> 3), r
+}
+
+type vC16SCall struct {
+	kind      string
+	k, v, old uint64
+}
+
+func (c vC16SCall) coq(capacity int64) string {
+	switch c.kind {
+	case "swc":
+		return fmt.Sprintf("CSwc %d %d %d", c.k, c.v, capacity)
+	case "set":
+		return fmt.Sprintf("CSet %d %d", c.k, c.v)
+	case "pia":
+		return fmt.Sprintf("CPia %d %d", c.k, c.v)
+	case "del":
+		return fmt.Sprintf("CDel %d", c.k)
+	case "cas":
+		return fmt.Sprintf("CCas %d %d %d", c.k, c.old, c.v)
+	case "cad":
+		return fmt.Sprintf("CCad %d %d", c.k, c.old)
+	case "clear":
+		return "CClear"
+	case "get":
+		return fmt.Sprintf("CGet %d", c.k)
+	default:
+		return "CAll"
+	}
+}
+
+// script: fixed list of actions ("go t" / "rel j") or nil for random choices
+func vC16Sched(r *rand.Rand, pk vC16LockPeek, capacity int64, prefix []vC16SCall, progs [][]vC16SCall, script []string, name string) map[string]any {
+	if !pk.ok {
+		return map[string]any{"k": "sched", "inconclusive": true, "desc": map[string]any{"why": "lock words of this runtime not recognised"}}
+	}
+	m := NewSegmentUInt64Map[any](4, 0)
+	c := &Cache{data: &SyncUInt64Map[any]{data: m}, maxSize: capacity}
+	ns := len(m.segments)
+	for _, p := range prefix {
+		c.Add(p.k, p.v)
+	}
+	for i := 0; i < ns; i++ {
+		m.segments[i].rwlock.Lock()
+	}
+	T := len(progs)
+	done := make([]atomic.Bool, T)
+	var finished atomic.Int64
+	reads := make([][]string, T)
+	var wg sync.WaitGroup
+	launch := func(t int) {
+		wg.Add(1)
+		go func() {
+			defer wg.Done()
+			defer func() { done[t].Store(true); finished.Add(1) }()
+			for _, cl := range progs[t] {
+				switch cl.kind {
+				case "swc":
+					c.Add(cl.k, cl.v)
+				case "set":
+					m.Set(cl.k, cl.v)
+				case "pia":
+					m.PutIfNotExists(cl.k, cl.v)
+				case "del":
+					c.Remove(cl.k)
+				case "cas":
+					c.CompareAndSwap(cl.k, cl.old, cl.v)
+				case "cad":
+					c.CompareAndDelete(cl.k, cl.old)
+				case "clear":
+					m.Clear()
+				case "get":
+					v, ok := c.Get(cl.k)
+					var id uint64
+					if ok {
+						id = v.(uint64)
+					}
+					reads[t] = append(reads[t], fmt.Sprintf("(%d%%nat, ObGet %d %s)", t, cl.k, vC16Opt(id, ok)))
+				default:
+					var all []vC16Pair
+					c.ForEach(func(k uint64, v any) bool { all = append(all, vC16Pair{k, v.(uint64)}); return true })
+					reads[t] = append(reads[t], fmt.Sprintf("(%d%%nat, ObAll %s)", t, vC16PList(all)))
+				}
+			}
+		}()
+	}
+	started := 0
+	isStarted := make([]bool, T)
+	waitAt := func(i int) int { w, rd := pk.waiting(&m.segments[i].rwlock); return w + rd }
+	// every started thread has returned or sleeps in front of a lock other than j, nobody is left at j, and j is ours again
+	settle := func(j int) string {
+		for it := 0; it < 60000; it++ {
+			fin := int(finished.Load())
+			sum := 0
+			for i := 0; i < ns; i++ {
+				if i != j {
+					sum += waitAt(i)
+				}
+			}
+			if fin+sum == started && (j < 0 || waitAt(j) == 0) {
+				if j < 0 || m.segments[j].rwlock.TryLock() {
+					return ""
+				}
+			}
+			if it < 4000 {
+				runtime.Gosched()
+			} else {
+				time.Sleep(100 * time.Microsecond)
+			}
+		}
+		fin := int(finished.Load())
+		sum := 0
+		for i := 0; i < ns; i++ {
+			if i != j {
+				sum += waitAt(i)
+			}
+		}
+		if fin+sum == started {
+			return fmt.Sprintf("every thread has returned or waits for a lock, yet segment %d stays locked: a waiting thread holds a segment lock", j)
+		}
+		return fmt.Sprintf("after releasing segment %d: %d of %d threads neither return nor reach another lock", j, started-fin-sum, started)
+	}
+	var steps []string
+	goFail, fkey := "", ""
+	capped := capacity >= 1
+	for _, p := range progs {
+		for _, cl := range p {
+			if cl.kind == "set" || cl.kind == "pia" {
+				capped = false
+			}
+		}
+	}
+	maxWait := 0
+	observe := func(act string) {
+		var segs, waits, dn []string
+		entries := 0
+		for i := 0; i < ns; i++ {
+			var all []vC16Pair
+			m.segments[i].data.ForEach(func(k uint64, v any) bool { all = append(all, vC16Pair{k, v.(uint64)}); return true })
+			if len(all) > 0 {
+				segs = append(segs, fmt.Sprintf("(%d%%nat, %s)", i, vC16PList(all)))
+				entries += len(all)
+			}
+			if w := waitAt(i); w > 0 {
+				waits = append(waits, fmt.Sprintf("(%d,%d)", i, w))
+				if w > maxWait {
+					maxWait = w
+				}
+			}
+		}
+		returned := 0
+		for t := 0; t < T; t++ {
+			dn = append(dn, fmt.Sprintf("%v", done[t].Load()))
+			if done[t].Load() {
+				returned++
+			}
+		}
+		cnt := m.count.Load()
+		lst := func(l []string, scope string) string {
+			if len(l) == 0 {
+				return "[]"
+			}
+			return "[" + strings.Join(l, ";") + "]" + scope
+		}
+		steps = append(steps, fmt.Sprintf("Grant (%s) %s %s %s %s", act, vC16Z(cnt), lst(segs, ""), lst(dn, ""), lst(waits, "%nat")))
+		if goFail == "" && returned == started && cnt != int64(entries) {
+			goFail = fmt.Sprintf("%s: every call has returned, Len()=%d but %d entries are stored", name, cnt, entries)
+		}
+		if goFail == "" && capped && int64(entries) > capacity+int64(started-returned) {
+			goFail = fmt.Sprintf("%s: %d entries, capacity %d, %d calls in flight", name, entries, capacity, started-returned)
+			fkey = "swc-sparse-scan-race"
+		}
+	}
+	complete := true
+	si := 0
+	for n := 0; n < 700 && goFail == ""; n++ {
+		if int(finished.Load()) == T {
+			break
+		}
+		var cands []int
+		for i := 0; i < ns; i++ {
+			if w := waitAt(i); w > 0 && w <= 3 {
+				cands = append(cands, i)
+			}
+		}
+		act, arg := "", 0
+		if script != nil {
+			if si >= len(script) {
+				complete = false
+				break
+			}
+			fmt.Sscanf(script[si], "%s %d", &act, &arg)
+			si++
+		} else if started < T && (len(cands) == 0 || r.Intn(4) == 0) {
+			act = "go"
+			for arg = r.Intn(T); isStarted[arg]; arg = (arg + 1) % T {
+			}
+		} else if len(cands) > 0 {
+			act, arg = "rel", cands[r.Intn(len(cands))]
+		} else {
+			complete = false // more than three threads in front of every candidate lock: stop here
+			break
+		}
+		if act == "go" {
+			if arg >= T || isStarted[arg] {
+				continue
+			}
+			isStarted[arg] = true
+			started++
+			launch(arg)
+			if e := settle(-1); e != "" {
+				goFail = name + ": " + e
+				break
+			}
+			observe(fmt.Sprintf("Go %d", arg))
+		} else {
+			if waitAt(arg) == 0 {
+				continue // scripted release with nobody waiting: nothing to see
+			}
+			m.segments[arg].rwlock.Unlock()
+			if e := settle(arg); e != "" {
+				goFail = name + ": " + e
+				m.segments[arg].rwlock.TryLock()
+				break
+			}
+			observe(fmt.Sprintf("Rel %d", arg))
+		}
+	}
+	if int(finished.Load()) != started || started != T {
+		complete = false
+	}
+	// let everybody finish
+	for i := 0; i < ns; i++ {
+		m.segments[i].rwlock.Unlock()
+	}
+	if !vC16WaitOrHang(&wg) && goFail == "" {
+		goFail = name + ": threads did not return after every lock was released"
+	}
+	var pre, pr, rd []string
+	for _, p := range prefix {
+		pre = append(pre, fmt.Sprintf("(%d%%N,%d%%N,%s%%Z)", p.k, p.v, vC16Z(capacity)))
+	}
+	for t := range progs {
+		var cs []string
+		for _, cl := range progs[t] {
+			cs = append(cs, cl.coq(capacity))
+		}
+		pr = append(pr, "["+strings.Join(cs, ";")+"]")
+		if complete {
+			rd = append(rd, reads[t]...)
+		}
+	}
+	lst := func(l []string) string { return "[" + strings.Join(l, ";") + "]" }
+	return map[string]any{
+		"k":          "sched",
+		"coq":        fmt.Sprintf("CaseSched %s %s %s %s %v", lst(pre), lst(pr), lst(steps), lst(rd), complete),
+		"go_fail":    goFail,
+		"fkey":       fkey,
+		"nontrivial": maxWait >= 2,
+		"desc":       map[string]any{"name": name, "threads": T, "capacity": capacity, "actions": len(steps), "complete": complete, "max_waiting_at_one_lock": maxWait},
+	}
+}
+
+// random programs over a few keys of neighbouring segments (so that spill scans,
+// evictions and the other operations meet), small capacities
+func vC16SchedRandom(r *rand.Rand, pk vC16LockPeek, idx int) map[string]any {
+	probe := NewSegmentUInt64Map[any](4, 0)
+	ns := uint(len(probe.segments))
+	base := uint(r.Intn(int(ns)))
+	var keys []uint64
+	for i := 0; i < 4+r.Intn(4); i++ {
+		keys = append(keys, vC16KeyInSeg(probe, (base+uint(r.Intn(6)))%ns, uint64(1+r.Intn(500))))
+	}
+	if r.Intn(3) == 0 {
+		keys = append(keys, 0)
+	}
+	capacity := int64(1 + r.Intn(3))
+	next := uint64(100)
+	val := func() uint64 { next++; return next }
+	var prefix []vC16SCall
+	var stored []uint64
+	for i := 0; i < r.Intn(int(capacity)+2); i++ {
+		v := val()
+		prefix = append(prefix, vC16SCall{kind: "swc", k: keys[r.Intn(len(keys))], v: v})
+		stored = append(stored, v)
+	}
+	T := 2 + r.Intn(3)
+	uncapped := r.Intn(6) == 0
+	progs := make([][]vC16SCall, T)
+	for t := range progs {
+		for n := 0; n < 1+r.Intn(2); n++ {
+			k := keys[r.Intn(len(keys))]
+			cl := vC16SCall{k: k}
+			old := uint64(101 + r.Intn(6))
+			if len(stored) > 0 && r.Intn(2) == 0 {
+				old = stored[r.Intn(len(stored))]
+			}
+			switch x := r.Intn(100); {
+			case x < 55:
+				cl.kind, cl.v = "swc", val()
+				stored = append(stored, cl.v)
+			case x < 65:
+				cl.kind = "del"
+			case x < 75:
+				cl.kind = "get"
+			case x < 82:
+				cl.kind, cl.old, cl.v = "cas", old, val()
+			case x < 88:
+				cl.kind, cl.old = "cad", old
+			case x < 92:
+				cl.kind = "all"
+			case x < 95:
+				cl.kind = "clear"
+			default:
+				if uncapped {
+					cl.kind, cl.v = []string{"set", "pia"}[r.Intn(2)], val()
+				} else {
+					cl.kind, cl.v = "swc", val()
+				}
+			}
+			progs[t] = append(progs[t], cl)
+		}
+	}
+	return vC16Sched(r, pk, capacity, prefix, progs, nil, fmt.Sprintf("random-%d", idx))
+}
+
+// the shape of finding swc-sparse-scan-race as far as lock gating can force it:
+// x stored; y@6 scans to segment 2 and waits; a@0 and o@1 insert behind it and
+// catch up; from segment 2 on the three go round together.  Who gets x is not up
+// to the test, so the overshoot shows up in some runs only; every outcome must be
+// one the model has.
+func vC16SchedSparse(r *rand.Rand, pk vC16LockPeek) map[string]any {
+	probe := NewSegmentUInt64Map[any](4, 0)
+	kx, ky := vC16KeyInSeg(probe, 5, 1), vC16KeyInSeg(probe, 6, 1)
+	ka, ko := vC16KeyInSeg(probe, 0, 1), vC16KeyInSeg(probe, 1, 1)
+	script := []string{"go 0", "rel 6"}
+	for j := 7; j < 16; j++ {
+		script = append(script, fmt.Sprintf("rel %d", j))
+	}
+	script = append(script, "rel 0", "rel 1", "go 1", "rel 0", "rel 1", "go 2", "rel 1")
+	for round := 0; round < 3; round++ {
+		for j := 0; j < 16; j++ {
+			script = append(script, fmt.Sprintf("rel %d", (j+2)%16))
+		}
+	}
+	return vC16Sched(r, pk, 1, []vC16SCall{{kind: "swc", k: kx, v: 1}},
+		[][]vC16SCall{{{kind: "swc", k: ky, v: 2}}, {{kind: "swc", k: ka, v: 3}}, {{kind: "swc", k: ko, v: 4}}}, script, "sparse-scan")
+}
+
+type vC16SchedScript struct {
+	Name     string         `json:"name"`
+	Capacity int64          `json:"capacity"`
+	Keys     map[string]int `json:"keys"` // name -> segment
+	Prefix   [][]any        `json:"prefix"`
+	Progs    [][][]any      `json:"progs"`
+	Script   []string       `json:"script"`
+}
+
+// fixed schedules (corpus/C16/sched_scripts.json), keys given by segment
+func vC16CorpusSched(r *rand.Rand, pk vC16LockPeek, path string) []map[string]any {
+	b, err := os.ReadFile(path)
+	if err != nil {
+		return nil
+	}
+	var scripts []vC16SchedScript
+	if json.Unmarshal(b, &scripts) != nil {
+		return []map[string]any{{"k": "corpus-sched", "go_fail": "corpus file " + path + " does not parse", "nontrivial": false}}
+	}
+	probe := NewSegmentUInt64Map[any](4, 0)
+	var out []map[string]any
+	for _, sc := range scripts {
+		key := map[string]uint64{"zero": 0}
+		for n, sg := range sc.Keys {
+			key[n] = vC16KeyInSeg(probe, uint(sg)%uint(len(probe.segments)), 1)
+		}
+		call := func(o []any) vC16SCall {
+			cl := vC16SCall{}
+			cl.kind, _ = o[0].(string)
+			num := func(i int) uint64 {
+				if i < len(o) {
+					if f, ok := o[i].(float64); ok {
+						return uint64(f)
+					}
+				}
+				return 0
+			}
+			if len(o) > 1 {
+				if nm, ok := o[1].(string); ok {
+					cl.k = key[nm]
+				}
+			}
+			switch cl.kind {
+			case "swc", "set", "pia":
+				cl.v = num(2)
+			case "cas":
+				cl.old, cl.v = num(2), num(3)
+			case "cad":
+				cl.old = num(2)
+			}
+			return cl
+		}
+		var prefix []vC16SCall
+		for _, o := range sc.Prefix {
+			prefix = append(prefix, call(o))
+		}
+		progs := make([][]vC16SCall, len(sc.Progs))
+		for t := range sc.Progs {
+			for _, o := range sc.Progs[t] {
+				progs[t] = append(progs[t], call(o))
+			}
+		}
+		c := vC16Sched(r, pk, sc.Capacity, prefix, progs, sc.Script, sc.Name)
+		c["k"] = "corpus-sched"
+		out = append(out, c)
+	}
+	return out
+}
+
+func TestVerifC16Sched(t *testing.T) {
+	tr := vC16Open(t)
+	defer tr.f.Close()
+	seed := int64(vC16EnvInt("VERIF_SEED", 1))
+	n := vC16EnvInt("VERIF_N", 40)
+	r := rand.New(rand.NewSource(seed + 4242))
+	pk := vC16NewLockPeek()
+	if dir := os.Getenv("VERIF_CORPUS"); dir != "" {
+		for _, c := range vC16CorpusSched(r, pk, dir+"/sched_scripts.json") {
+			tr.emit(c)
+		}
+	}
+	tr.emit(vC16SchedSparse(r, pk))
+	for i := 0; i < n; i++ {
+		tr.emit(vC16SchedRandom(r, pk, i))
+	}
 }
 
 // ---------------------------------------------------------- linearizability
